@@ -219,6 +219,22 @@ def run(ctx):
                     # objects derived by the copying selections keep the ploidy (and everything else) of their source
                     ("unphased", ug.select_taxa(np.arange(n))), ("phased", pg.select_taxa(np.arange(n))),
                     ("unphased", ug.select_vrnt(np.arange(L))), ("unphased", ug.select(np.arange(n), axis=0))]
+            # the same phases reached by IN-PLACE edits of the phase axis of a matrix that was already queried
+            how = t % 3
+            if how == 0 and P >= 2:
+                pe = DensePhasedGenotypeMatrix(pm[: P // 2].copy()); pe.afreq(); pe.ploidy
+                pe.append_phase(pm[P // 2:].copy())
+            elif how == 1:
+                pe = DensePhasedGenotypeMatrix(np.concatenate([pm, 1 - pm[:1], pm[:1]], axis=0)); pe.afreq(); pe.ploidy
+                pe.remove_phase(np.array([P, P + 1]))
+            else:
+                pe = DensePhasedGenotypeMatrix(pm[1:].copy()) if P >= 2 else DensePhasedGenotypeMatrix(np.concatenate([pm, pm], axis=0))
+                pe.afreq(); pe.ploidy
+                if P >= 2:
+                    pe.incorp_phase(0, pm[:1].copy())
+                else:
+                    pe.remove(1, axis=0)
+            objs += [("phased", pe), ("genotyped", DenseUnphasedGenotyping().genotype(pe))]
         except Exception as e:
             ctx.violation("construct:exception", "ploidy %d: %s: %s" % (P, type(e).__name__, e), {"n": n, "ploidy": P})
             continue
@@ -230,7 +246,7 @@ def run(ctx):
             try:
                 c = observe(cid, cls, obj, comp, n, small, P)
                 c["copy"] = ["", "", "", ":deepcopy", ":deepcopy", ":copy", ":copy", ":deepcopy", ":deepcopy", ":select_taxa", ":select_taxa",
-                             ":select_vrnt", ":select"][k]
+                             ":select_vrnt", ":select", ":phases-edited-in-place", ":phases-edited-in-place"][k]
                 allc.append(c)
             except Exception as e:
                 ctx.violation("%s:exception" % cls, "ploidy %d: %s: %s" % (P, type(e).__name__, e), {"n": n, "ploidy": P})
